@@ -63,7 +63,8 @@ def _prune_type_dead_none_tests(prog: Program, types) -> int:
                 nt = none_test(body[i + 1].test)
                 if nt is not None and nt[0] == st.targets[0].id:
                     td = types.of(fn.module, st.value)
-                    if td.known and not td.any and "builtins.None" not in td.classes:
+                    # (`object` is what the checker says when it knows nothing, e.g. TypedDict.get with a key that is not a literal: it includes None)
+                    if td.known and not td.any and "builtins.None" not in td.classes and "builtins.object" not in td.classes and td.classes:
                         live = body[i + 1].orelse if nt[1] else body[i + 1].body
                         body[i + 1:i + 2] = live
                         n += 1
